@@ -184,4 +184,45 @@ def osRun (S : SimIface σ α ω ι) (k : MKind) : OSState σ → List (Option (
       | some acts => osStep S k st acts
     r.1 :: osRun S k r.2 cs
 
+/-! ## OpenSpiel with the public `current_player` setter in the call alphabet
+
+`OpenSpielWrapper.current_player = a` is a public setter that asserts only that `a` is a learning agent.
+With it an action can arrive, in turn-based play, for an agent that is already done; that is the only
+way the done-agent filter and `_take_fake_step` are reached there (`osRun_sound`).  `osRunX` delegates
+resets and steps to the very `osReset` / `osStep` above. -/
+
+inductive OSIn (α : Type) where
+  | reset
+  | step (acts : List α)
+  | setCurrent (a : Aid)
+
+/-- an `osRun` call as an `osRunX` call -/
+def OSIn.ofPlain : Option (List α) → OSIn α
+  | none => .reset
+  | some acts => .step acts
+
+/-- the setter: `assert value in self._learning_agents` (an `AssertionError` leaves everything as it
+was), then only `_current_player` changes -/
+def osSetCurrent (S : SimIface σ α ω ι) (st : OSState σ) (a : Aid) : Except Err Unit × OSState σ :=
+  if a ∈ S.learners then (.ok (), { st with current := a }) else (.error .rejected, st)
+
+/-- what a call of the richer alphabet returns: a time step (with the ghost manager calls) or the
+setter's outcome -/
+inductive OSOut (α ω ι : Type) where
+  | ts  (c : OSCall α ω ι)
+  | set (res : Except Err Unit)
+
+def osRunX (S : SimIface σ α ω ι) (k : MKind) : OSState σ → List (OSIn α) → List (OSOut α ω ι)
+  | _, [] => []
+  | st, .reset :: cs =>
+    let r := osReset S k st
+    .ts r.1 :: osRunX S k r.2 cs
+  | st, .step acts :: cs =>
+    let r := osStep S k st acts
+    .ts r.1 :: osRunX S k r.2 cs
+  | st, .setCurrent a :: cs =>
+    let r := osSetCurrent S st a
+    .set r.1 :: osRunX S k r.2 cs
+
+
 end Abmarl
